@@ -215,6 +215,22 @@ def run_family(prop, tier, ev, jobs, *, groups, validate_scripts=0, roles=None, 
             kf = C.known_finding_for(prop, role)
             reproduced = None
             items = sorted(items, key=lambda jv: 0 if (jv[0].get("opts") or {}).get("tie") else 1)
+            if label in RACE_LABELS:
+                # structural lock-discipline obligation: its violation needs a second thread to manifest; replayed by a
+                # native two-thread stress run against the real crate (fails with high probability within seconds)
+                job, v = items[0]
+                d = C.replay_dir(prop, label.split(":")[1][:40])
+                ok_r, log_r = race_replay(work, d)
+                with open(os.path.join(d, "counterexample.json"), "w") as f:
+                    json.dump(dict(property=prop, obligation=label, detail=v["detail"], script=job["script"], opts=job.get("opts") or {},
+                                   values=v["vals"], race=True, native=log_r), f, indent=1, default=str)
+                with open(os.path.join(d, "README.txt"), "w") as f:
+                    f.write(f"Lock-discipline violation for {prop}, obligation {label}: {v['detail']}\n"
+                            f"Found on the MIR (script {short(job['script'])}); replayed by harness/native/verif_race.rs: a scheduling thread races "
+                            f"the stepping thread; observed:\n" + "\n".join(log_r) + f"\nRe-run: ./check {prop} --replay {d}\n")
+                if ok_r:
+                    reproduced = (d, v, [(label, "race")])
+                items = []
             for job, v in items[:8]:
                 script, opts = job["script"], job.get("opts") or {}
                 text = NV.render(script, v["vals"], opts)
@@ -298,6 +314,41 @@ def run_family(prop, tier, ev, jobs, *, groups, validate_scripts=0, roles=None, 
         work.close()
 
 
+RACE_LABELS = {"C08:time-advances-under-the-queue-lock", "C08:request-validated-under-the-queue-lock"}
+
+
+def race_replay(work, d, secs=10, attempts=3):
+    """two-thread stress run of the real crate (release build); returns (reproduced, log lines)"""
+    import re
+    import shutil
+    import subprocess
+    crate = work.sync_overlay("ovn")
+    shutil.copy(os.path.join(C.VERIF, "harness", "native", "verif_race.rs"), os.path.join(crate, "tests", "verif_race.rs"))
+    rc, out = C.run(["cargo", "test", "--offline", "--release", "--test", "verif_race", "--no-run", "--target-dir", work.sub("native-target")],
+                    cwd=crate, timeout=1800, log_path=work.sub("native-build-race.log"))
+    m = re.findall(r"Executable tests/verif_race\.rs \(([^)]+)\)", out)
+    if rc != 0 or not m:
+        return None, ["build failed"]
+    exe = m[-1] if os.path.isabs(m[-1]) else os.path.join(crate, m[-1])
+    log = []
+    for a in range(attempts):
+        for mode in ("until", "step"):
+            try:
+                p = subprocess.run([exe, "--nocapture"], env=C.env_offline({"VERIF_RACE": mode, "VERIF_RACE_SECS": str(secs)}), stdout=subprocess.PIPE,
+                                   stderr=subprocess.STDOUT, text=True, timeout=secs * 6 + 60)
+                lines = [l for l in p.stdout.splitlines() if l.startswith("race-")]
+            except subprocess.TimeoutExpired:
+                lines = [f"race-violation mode={mode}: the stepping thread did not return (hang)"]
+            log += lines
+            if any(l.startswith("race-violation") for l in lines):
+                with open(os.path.join(d, "native_trace.txt"), "w") as f:
+                    f.write("\n".join(log) + "\n")
+                return True, log
+    with open(os.path.join(d, "native_trace.txt"), "w") as f:
+        f.write("\n".join(log) + "\n")
+    return False, log
+
+
 def _streams_equal(a, b):
     def canon(evs):
         """events with runs of same-time executions sorted: the relative order of actions of DIFFERENT origins due at
@@ -373,6 +424,13 @@ def replay(prop, path, groups):
     ce = json.load(open(cj))
     work = C.WorkDir(f"mirse-{prop}")
     try:
+        if ce.get("race"):
+            okr, logr = race_replay(work, path)
+            print("\n".join(logr))
+            if okr:
+                C.log(f"VIOLATION property={prop} replay={path}")
+                return C.EXIT_VIOLATION
+            return C.EXIT_OK if okr is False else C.EXIT_INCONCLUSIVE
         exe, out = NV.build_runner(work)
         if not exe:
             C.log("native runner build failed")
